@@ -41,6 +41,7 @@ class Checker:
 
     def __init__(self):
         self.fires = {}
+        self.value_ok = set()
 
     def fire(self, k, n=1):
         self.fires[k] = self.fires.get(k, 0) + n
@@ -61,7 +62,7 @@ class Checker:
             try:
                 with warnings.catch_warnings():
                     warnings.simplefilter("ignore")
-                    if not H.clone(S).is_complete():
+                    if not S.is_complete():
                         ps.append("is_complete() is False")
             except Exception as e:  # noqa: BLE001
                 ps.append(f"is_complete() raised {type(e).__name__}")
@@ -82,8 +83,18 @@ class Checker:
         if nrec:
             self.fire("wf.recipes+compiled-contractors", nrec)
         probs += ["wf: " + p for p in H.recipe_problems(S)]
-        self.fire("value(snapshot)")
-        probs += ["value: " + p for p in H.value_problems(S, env, st.proj)]
+        # the value check is a deterministic function of the complete state of
+        # the snapshot: an identical state that already contracted to the right
+        # value (same projections) need not be contracted again
+        fp = (H.fingerprint(S), tuple(sorted(st.proj.items())))
+        if fp in self.value_ok:
+            self.fire("value(snapshot, identical state already checked)")
+        else:
+            self.fire("value(snapshot)")
+            vp = H.value_problems(S, env, st.proj)
+            probs += ["value: " + p for p in vp]
+            if not vp:
+                self.value_ok.add(fp)
         if st.orig is not None:
             self.fire("copy-independence")
             probs += ["copy: " + p for p in H.orig_problems(st)]
@@ -111,7 +122,9 @@ def _prepare(case, prep, env):
 
 
 def work_exhaustive(item):
-    ci, prep, i1, depth = item
+    """All histories of length <= depth from one (case, prepared state); the
+    first operations are item[2] (a list of menu positions)."""
+    ci, prep, firsts, depth = item
     ctx = _CTX
     case = ctx["cases"][ci]
     if time.time() > ctx["deadline"]:
@@ -119,7 +132,7 @@ def work_exhaustive(item):
     env = H.Env(case, poly=True)
     chk = Checker()
     menu = H.menu_for(case)
-    out = {"n": 0, "nt": [], "viol": [], "samples": [], "skipped": 0, "timeout": 0, "hist": 0}
+    out = {"n": 0, "nt": [], "viol": [], "samples": [], "skipped": 0, "timeout": 0}
     st0, err = _prepare(case, prep, env)
     if st0 is None:
         out["viol"].append((signature(case, prep, [], err), make_case(case, prep, [])))
@@ -127,16 +140,17 @@ def work_exhaustive(item):
         return out
 
     def rec(st, hist, idxs, d):
-        # extend `hist` by every operation of the menu (or only by i1 at depth 0)
-        choices = [i1] if not hist else range(len(menu))
+        choices = firsts if not hist else range(len(menu))
         for j in choices:
-            if len(out["viol"]) >= 3:
+            if len(out["viol"]) >= 6:
+                return
+            if time.time() > ctx["deadline"]:
+                out["timeout"] = 1
                 return
             op = menu[j]
             st2 = st.fork()
             status, payload = H.apply_op(st2, op, env)
             out["n"] += 1
-            out["hist"] += 1
             h2 = hist + [op]
             if status == "skipped":
                 out["skipped"] += 1
@@ -150,13 +164,10 @@ def work_exhaustive(item):
                 out["viol"].append((signature(case, prep, h2, probs[0]), make_case(case, prep, h2)))
                 continue
             if d + 1 < depth:
-                if time.time() > ctx["deadline"]:
-                    out["timeout"] = 1
-                    return
                 rec(st2, h2, idxs + [j], d + 1)
 
     rec(st0, [], [], 0)
-    if i1 == 0 and prep == "fresh":
+    if prep == "fresh" and 0 in firsts:
         out["samples"].append({"network": H.case_label(case), "state": prep,
                                "history": H.hist_label([menu[0], menu[min(5, len(menu) - 1)]])})
     out["fires"] = chk.fires
@@ -234,13 +245,13 @@ def run_bounded(rep: Report, tier: str) -> None:
     for ci, case in enumerate(cases):
         m = len(H.menu_for(case))
         for prep in H.PREP_ORDER:
-            for i1 in range(m):
-                items.append((ci, prep, i1, 2))
+            # two work items per (pair, state): identical states reached by
+            # different histories are contracted once per item
+            items.append((ci, prep, list(range(0, m, 2)), 2))
+            items.append((ci, prep, list(range(1, m, 2)), 2))
     _CTX = {"cases": cases, "deadline": t_end}
     n0 = rep.evaluations
-    res = []
-    for status, r in pmap(_tagged_exh, items, chunk=4):
-        res.append((status, r))
+    res = list(pmap(_tagged_exh, items, chunk=1))
     _aggregate(rep, res, "exh2", viols, stats)
     done = rep.evaluations - n0
     t_out = stats["timeout"]
@@ -259,7 +270,7 @@ def run_bounded(rep: Report, tier: str) -> None:
             m = len(H.menu_for(cases[ci]))
             for prep in preps3:
                 for i1 in range(m):
-                    items.append((ci, prep, i1, 3))
+                    items.append((ci, prep, [i1], 3))
         stats["timeout"] = 0
         n0 = rep.evaluations
         res = list(pmap(_tagged_exh, items, chunk=1))
